@@ -7,7 +7,7 @@ env = dict(os.environ, GOPROXY='off', GOSUMDB='off', GOTOOLCHAIN='local', GOFLAG
 mods = ['go/mcap', 'go/ros', 'go/conformance/test-read-conformance', 'go/conformance/test-write-conformance']
 status = {}
 for m in mods:
-    d = os.path.join('/repo', m)
+    d = os.path.join(os.environ.get('REPO', '/repo'), m)
     if not os.path.isdir(d):
         continue
     p = subprocess.run(['go', 'test', '-json', '-vet=off', '-count=1', '-timeout', '25m', './...'], cwd=d, env=env, capture_output=True, text=True)
